@@ -1,7 +1,10 @@
 // Command c11 is the correspondence harness of property C11 (mesh diagnostics, repair and
 // nesting agree with their definitions): it damages closed manifolds in many ways, runs the REAL
 // model3d / model2d diagnostics, repairs and hierarchy builder on them and prints their results
-// in the canonical form that lean/M3d/Drv/C11.lean derives from the definitions.
+// in the canonical form that lean/M3d/Drv/C11.lean derives from the definitions.  hist3 / hist2
+// (hist.go) run the diagnostics along generated HISTORIES of one mesh object (Add, Remove, Copy,
+// calls that build the lazily maintained vertex index).  `-gen HierAxis` (genaxis.go) regenerates
+// lean/M3d/Gen/HierAxis.lean from the sweep axes in the source.
 package main
 
 import (
@@ -18,7 +21,7 @@ func run(c *hlib.Ctx) {
 	}
 	kinds := []k{
 		{22, kindDiag3}, {5, kindDiagD3}, {9, kindClus3}, {14, kindRnm3}, {8, kindRn3}, {8, kindRep3},
-		{10, kindHier3}, {8, kindDiag2}, {5, kindRn2}, {4, kindRep2}, {7, kindHier2},
+		{10, kindHier3}, {8, kindDiag2}, {5, kindRn2}, {4, kindRep2}, {7, kindHier2}, {16, kindHist3}, {8, kindHist2},
 	}
 	total := 0
 	for _, x := range kinds {
